@@ -47,6 +47,15 @@ Proof.
 Qed.
 Print Assumptions C13_exclude_options_is_filter.
 
+(** literal exclusion of positions: the predicate is equality of key sequences (the int key i and the
+    sequence index i print alike and are identified by [norm]); [path_ok] is C09's printer guard *)
+Theorem C13_exclude_literal_is_path_equality :
+  forall (Q : list path) (p : path),
+  path_ok p = true -> Forall (fun q => path_ok q = true) Q ->
+  excluded no_skip (map render Q) p = existsb (fun q => path_eqb (norm p) (norm q)) Q.
+Proof. exact excluded_literal. Qed.
+Print Assumptions C13_exclude_literal_is_path_equality.
+
 (** regex exclusion never touches the union: pure filter at EVERY threshold *)
 Theorem C13_exclude_regex_any_threshold :
   forall hatom udiff ops (P : path -> bool) (c : cfg) (t1 t2 : value),
